@@ -83,6 +83,17 @@ def inner_exprs(r, big_ok, huge=False):
 
 def check(c, r, layer_kinds, nstmts, tag, big_ok=False, huge=False):
     sessions = [Sess(k, i, r) for i, k in enumerate(layer_kinds)]   # innermost first
+    r4 = r.fork('twins')
+    for i in range(1, len(sessions)):
+        if sessions[i].kind == sessions[i - 1].kind and r4.chance(1, 2):
+            # a tunnel inside a tunnel of the same kind with EQUAL parameters: a second object created by the same constructor call,
+            # or (where the header carries no per-session counter) the very same object at both levels
+            import copy
+            if sessions[i].kind != 'erspan2' and r4.chance(1, 2): sessions[i] = sessions[i - 1]; c.count('same-session-twice')
+            else:
+                tw = copy.copy(sessions[i - 1]); tw.name = sessions[i - 1].name + 'twin%d' % i
+                tw.decl = sessions[i - 1].decl.replace('let %s =' % sessions[i - 1].name, 'let %s =' % tw.name); tw.count = 0
+                sessions[i] = tw; c.count('twin-sessions')
     decls, _ = inner_exprs(r, big_ok, huge)
     head = ['import ipv4;', 'import eth;', 'import vxlan;', 'import gre;', 'import erspan1;', 'import erspan2;']
     body_enc, body_ref, meta = [], [], []
@@ -105,7 +116,7 @@ def check(c, r, layer_kinds, nstmts, tag, big_ok=False, huge=False):
             pis.append(pi)
             sg = sg and wrapped.split('(')[0].endswith('dgram')
         body_enc.append(wrapped + ';'); body_ref.append(e + ';'); meta.append(pis)
-    sess_decls = [s.decl for s in sessions]
+    sess_decls = list(dict.fromkeys(s.decl for s in sessions))
     src_enc = ('\n'.join(head + alld + sess_decls + body_enc) + '\n').encode()
     src_ref = ('\n'.join(head + alld + body_ref) + '\n').encode()
     if r.chance(1, 3):      # mandatory parameters (session endpoints, encap's packet, ...) by name instead of by position
